@@ -269,6 +269,162 @@ def scen_cycle(cfg):
 SCEN = {"phase": scen_phase, "set_dist": scen_set_dist, "info": scen_info_roundtrip, "default": scen_default_delay, "cycle": scen_cycle}
 
 
+KEY_K5 = "K5:threaded-runtime-binds-delay-distributions-at-warmup"
+
+
+class _JaxNoJit:
+    """stands in for `jax` inside rex.asynchronous while the warm-up runs under proxy execution: compilation is not modelled (jit = identity)"""
+
+    def __init__(self, real):
+        self._real = real
+
+    def jit(self, fn, *a, **k):
+        return fn
+
+    def devices(self, *a, **k):
+        return ["cpu"]
+
+    def __getattr__(self, n):
+        return getattr(self._real, n)
+
+
+def scen_async_dist(cfg):
+    """'takes effect in subsequent simulation' on the threaded runtime: after warm-up, a node (connection) is given a new delay distribution
+    (what set_delay does -- decided by the set_dist scenario); the next episode's reset must derive its sampling state from the distribution the
+    node (the graph state's input) carries *now*, not from the one that was there at warm-up."""
+    what = cfg["what"]
+
+    def scenario(V):
+        import jax.numpy as jnp
+        from rex import base
+        from rex.constants import Clock
+        from vlib import asyncsym
+
+        class TagDist:
+            """distribution stand-in: its reset state is its own (solver-symbolic) delay, so one can read off which distribution a state came from"""
+
+            def __init__(self, q):
+                self.q = q
+
+            def reset(self, rng):
+                return self.q if V.symbolic else jnp.float32(self.q)
+
+            @staticmethod
+            def sample_pure(state, shape=None):
+                class _S:
+                    def block_until_ready(self):
+                        return self
+                return state, (_S() if V.symbolic else jnp.ones((shape,), jnp.float32) * state)
+
+            def mean(self):
+                return self.q
+
+        q_old, q_new = V.grid("q_old", lo=0, hi=1), V.grid("q_new", lo=0, hi=1)
+        V.assume(q_old < q_new)
+        rec = asyncsym.Recorder()
+        snd = asyncsym.mk_node(V, rec, "snd", 20)
+        rcv = asyncsym.mk_node(V, rec, "rcv", 10)
+        c = asyncsym.mk_conn(V, rec, snd, rcv)
+        snd.node.delay_dist, rcv.node.delay_dist = TagDist(q_old), TagDist(q_old)
+        win_old = rcv._step_state.inputs["snd"]
+        win_old.delay_dist = TagDist(q_old)
+        win_old.seq = 0
+
+        class GS:
+            step_state = {"snd": snd._step_state, "rcv": rcv._step_state}
+            inputs = {"rcv": {"snd": win_old}, "snd": {}}
+            rng = {"snd": ("rng", "snd"), "rcv": ("rng", "rcv")}
+
+        import rex.asynchronous as A
+
+        class _Rnd:
+            @staticmethod
+            def split(rng, num=2):
+                return [("split", rng, i) for i in range(num)]
+
+            @staticmethod
+            def PRNGKey(i):
+                return ("key", i) if V.symbolic else __import__("jax").random.PRNGKey(i)
+
+        old_rnd, A.rnd = A.rnd, _Rnd
+        c._jit_update_input_state = None
+        try:
+            if what == "node":
+                snd._has_warmed_up = False
+                snd.warmup(GS, jit_step=False)
+                snd.node.delay_dist = TagDist(q_new)  # BaseNode.set_delay(delay_dist=...)
+                asyncsym.real_reset_start(V, [snd], keep_jit_reset=True)
+                got = snd._dist_state
+            else:
+                orig = A.update_input_state
+                A.update_input_state = lambda i, *a: i
+                try:
+                    c.warmup.__func__  # real method
+                    win_old.__class__.__getitem__ = lambda self, k: type("E", (), {"data": None})()
+                    c.warmup(GS, device_step="cpu", device_dist="cpu")
+                finally:
+                    A.update_input_state = orig
+                win_new = rcv._step_state.inputs["snd"]
+                win_new.delay_dist = TagDist(q_new)  # Connection.set_delay(delay_dist=...) followed by graph.init(): the graph state's input carries the new distribution
+                asyncsym.real_reset_start(V, [rcv], keep_jit_reset=True)
+                got = c._dist_state
+        finally:
+            A.rnd = old_rnd
+        from props.c03 import _close
+        return {f"threaded runtime: after warm-up, a new delay distribution of a {what} is the one the next episode samples from": _close(V, got, q_new),
+                "twin:warm-up completed": True}
+
+    return scenario
+
+
+def worker_async_dist(cfg, tier):
+    import rex.asynchronous as A
+    from props.c03 import _to_obs
+    from vlib import pysym
+
+    res, stats = pysym.run_scenario(scen_async_dist(cfg), [A], extra_patch={"rex.asynchronous": {"jax": _JaxNoJit(A.jax)}}, timeout_ms=30000)
+    keymap = {r["name"]: KEY_K5 for r in res if r["name"].startswith("threaded runtime")}
+    whatmap = {r["name"]: "the threaded runtime binds delay_dist.reset / sample_pure of the distribution present at warm-up into its jitted functions: a distribution set afterwards never reaches the simulation" for r in res}
+    obs, stats = _to_obs(res, stats, cfg, "async-dist", keymap, whatmap)
+    for o in obs:
+        if o.verdict == "sat" and o.kind == "obligation":
+            o.replayed = _replay_async_dist(cfg["what"])  # through the public API, with the real jax.jit
+    if obs:
+        obs[0].detail = {"stats": stats}
+    return obs
+
+
+def _replay_async_dist(what):
+    """public API: AsyncGraph.init / warmup, then set_delay(delay_dist=...), then what the next episode's reset samples from"""
+    import jax
+    from distrax import Deterministic as D
+    from rex.asynchronous import AsyncGraph
+    from rex.constants import Clock, RealTimeFactor
+    from vlib.fixtures import ProbeNode
+
+    try:
+        a = ProbeNode(name="sensor", rate=20, delay_dist=D(0.005))
+        b = ProbeNode(name="agent", rate=10, delay_dist=D(0.01))
+        b.connect(a, window=1, delay_dist=D(0.005))
+        g = AsyncGraph(nodes={"sensor": a, "agent": b}, supervisor=b, clock=Clock.SIMULATED, real_time_factor=RealTimeFactor.FAST_AS_POSSIBLE)
+        gs = g.init(jax.random.PRNGKey(1))
+        g.warmup(gs)
+        a.set_delay(delay_dist=D(0.02), delay=0.02)
+        b.inputs["sensor"].set_delay(delay_dist=D(0.03), delay=0.03)
+        gs2 = g.init(jax.random.PRNGKey(1))  # a graph state built after the change
+        wa, wb = g._async_nodes["sensor"], g._async_nodes["agent"]
+        for w in (wa, wb):
+            w._reset(gs2, clock=Clock.SIMULATED, real_time_factor=0)
+        if what == "node":
+            _, smp = wa._jit_sample(wa._dist_state, shape=2)
+            return abs(float(smp[0]) - 0.02) > 1e-6
+        ci = wb.inputs["sensor"]
+        _, smp = ci._jit_sample(ci._dist_state, shape=2)
+        return abs(float(smp[0]) - 0.03) > 1e-6
+    except Exception:
+        return None
+
+
 def worker(cfg, tier):
     import rex.node as N
     from props.c03 import _to_obs
@@ -320,8 +476,16 @@ def run(rep):
     rep.configs = cfgs
     rep.bounds = dict(nodes="<= 3 (4)", dag_shapes=len([c for c in cfgs if c["scen"] == "phase"]), expected_delays="symbolic on the 1us grid in [0,1]")
     rep.assumptions = ["delay distributions replaced by stand-ins exposing quantile/mean (no JAX involved)", "histories: construction, then set_delay on a node, on a connection, again on the same node, on the last node, on the last connection, and one call passing only a distribution (phases/infos checked after each stage)",
-                       "'takes effect in subsequent simulation' is checked as: the runtime objects (node.delay_dist / connection.delay_dist / info) are the new ones"]
-    rep.add_all(pmap("props.c16", "worker", cfgs, rep.tier))
+                       "'takes effect in subsequent simulation': (i) the runtime objects (node.delay_dist / connection.delay_dist / info) are the new ones; (ii) threaded runtime: the real "
+                       "warmup / _reset / reset of the node and connection wrappers with jax.jit replaced by the identity (compilation not modelled) -- known finding K5; the compiled "
+                       "runtime reads the distributions when graphs are generated (C12)"]
+    obs = pmap("props.c16", "worker", cfgs, rep.tier)
+    import rex.asynchronous as A
+    rep.encode(A._AsyncNodeWrapper.warmup, A._AsyncNodeWrapper._reset, A._AsyncConnectionWrapper.warmup, A._AsyncConnectionWrapper.reset)
+    dcfg = [dict(scen="async_dist", what="node"), dict(scen="async_dist", what="connection")]
+    rep.configs = list(cfgs) + dcfg
+    obs += pmap("props.c16", "worker_async_dist", dcfg, rep.tier, serial=True)
+    rep.add_all(obs)
 
 
 def replay(rp):
